@@ -28,7 +28,7 @@ func decoderSilent(codec int, data []byte) bool {
 	var err error
 	src := bytesReader(data)
 	switch codec {
-	case 1:
+	case 1, 5:
 		r, err = gzip.NewReader(src)
 	case 2:
 		r, err = bzip2.NewReader(src, &bzip2.ReaderConfig{})
